@@ -3,6 +3,7 @@ package sqlittle
 import (
 	"errors"
 	"fmt"
+	"reflect"
 	"strconv"
 	"time"
 
@@ -39,6 +40,10 @@ type Row sdb.Record
 func (r Row) Scan(args ...interface{}) error {
 	var err error
 	for i, v := range args {
+		if rv := reflect.ValueOf(v); rv.Kind() == reflect.Ptr && rv.IsNil() {
+			// a typed nil pointer: there is nothing to store the value in
+			return fmt.Errorf("nil Scan() destination: %T", v)
+		}
 		switch vt := v.(type) {
 		case nil:
 			// skip
